@@ -124,12 +124,12 @@ func (s *MonitoredItemService) ChangeNotification(n *ua.NodeID) {
 			val.Value = &ua.DataValue{}
 			val.Value.Status = ua.StatusBad
 			val.Value.EncodingMask |= ua.DataValueStatusCode
-			item.Sub.NotifyChannel <- val
+			item.Sub.notify(val)
 			continue
 		}
 		dv := ns.Attribute(n, item.Req.ItemToMonitor.AttributeID)
 		val.Value = dv
-		item.Sub.NotifyChannel <- val
+		item.Sub.notify(val)
 	}
 
 }
